@@ -165,6 +165,7 @@ def op_alphabet(arity):
         for s in range(3):
             if r != s:
                 ops.append(('K', r, s))
+                ops.append(('KF', r, s))
     return ops
 
 
@@ -189,8 +190,8 @@ def emit_history(c, typ, hist, values, is_hist, edges_by_reg=None):
         elif op == 'M':
             c.op('M', r, s)
             lens[r] += lens[s]
-        elif op == 'K':
-            c.op('K', r, s)
+        elif op in ('K', 'KF'):
+            c.op(op, r, s)      # KF: Clone::clone_from into the existing register
             lens[r] = lens[s]
     return lens
 
@@ -249,7 +250,7 @@ def shard(desc):
                 h.append(('M', rng.randrange(3), rng.randrange(3)))
             else:
                 a, b = rng.sample(range(3), 2)
-                h.append(('K', a, b))
+                h.append((rng.choice(['K', 'KF']), a, b))
         c = new_case('%s-%d' % (desc['name'], cid), typ, is_hist, edges)
         cid += 1
         lens = emit_history(c, typ, h, values, is_hist)
